@@ -14,6 +14,11 @@ import WnVerif.Lemmas.DbAux
 import WnVerif.Gen.Schema
 import WnVerif.Gen.Misc
 import WnVerif.Lemmas.AddWords
+import WnVerif.Lemmas.Forall2
+import WnVerif.Lemmas.FrameG
+import WnVerif.Lemmas.AddRels
+import WnVerif.Lemmas.AddSenses
+import WnVerif.Lemmas.AddOwned
 namespace WnVerif.Props.C01
 open WnVerif WnVerif.Db WnVerif.Doc
 
@@ -103,17 +108,7 @@ theorem C01_dependencies_recorded (db db' : Db) (l : Lexicon) (lexid extid : Nat
 
 /-! ### `_insert_entries` -/
 
-/-- element-wise relation between two lists of the same length -/
-inductive Forall2 {α β} (R : α → β → Prop) : List α → List β → Prop
-  | nil : Forall2 R [] []
-  | cons {a b l l'} : R a b → Forall2 R l l' → Forall2 R (a :: l) (b :: l')
 
-theorem Forall2.imp {α β} {R S : α → β → Prop} (h : ∀ a b, R a b → S a b) : ∀ {l : List α} {l' : List β},
-    Forall2 R l l' → Forall2 S l l' := by
-  intro l l' hr
-  induction hr with
-  | nil => exact Forall2.nil
-  | cons hh _ ih => exact Forall2.cons (h _ _ hh) ih
 
 /-- the row written for a document entry -/
 def EntryRowOf (c : Ctx) (e : Entry) (r : REntry) : Prop :=
@@ -540,10 +535,6 @@ theorem filterMap_zip {α β γ} (G : α → Option γ) (W : α × β → γ) : 
       congr 1
       exact ih t' (by simpa using hlen) (fun p hp => h p (by simp [hp]))
 
-theorem Forall2.length_eq {α β} {R : α → β → Prop} {l : List α} {l' : List β} (h : Forall2 R l l') : l.length = l'.length := by
-  induction h with
-  | nil => rfl
-  | cons _ _ ih => simp [ih]
 
 /-- `find_entries` for the lexicon `lexid`, on a store whose entries of that lexicon are `rows` (in
 rowid order) and whose forms for them are `chunks` (each in rank order): exactly one word per row,
@@ -615,62 +606,9 @@ theorem findEntries_of_tables (db' : Db) (Eold rows : List REntry) (Fold : List 
 
 /-! ### end to end: `words()` after `add` = the document's entries -/
 
-theorem Forall2.get {α β} {R : α → β → Prop} : ∀ {l : List α} {l' : List β}, Forall2 R l l' →
-    ∀ i (h1 : i < l.length) (h2 : i < l'.length), R l[i] l'[i] := by
-  intro l l' h
-  induction h with
-  | nil => intro i h1; simp at h1
-  | cons hh _ ih =>
-    intro i h1 h2
-    cases i with
-    | zero => exact hh
-    | succ j => simp only [List.getElem_cons_succ]; exact ih j (by simpa using h1) (by simpa using h2)
 
-theorem Forall2.of_index {α β} {R : α → β → Prop} : ∀ (l : List α) (l' : List β), l.length = l'.length →
-    (∀ i (h1 : i < l.length) (h2 : i < l'.length), R l[i] l'[i]) → Forall2 R l l' := by
-  intro l
-  induction l with
-  | nil => intro l' hl _; cases l' with | nil => exact Forall2.nil | cons _ _ => simp at hl
-  | cons a t ih =>
-    intro l' hl h
-    cases l' with
-    | nil => simp at hl
-    | cons b t' =>
-      refine Forall2.cons (h 0 (by simp) (by simp)) (ih t' (by simpa using hl) ?_)
-      intro i h1 h2
-      have := h (i + 1) (by simpa using h1) (by simpa using h2)
-      simpa using this
 
-theorem Forall2.map_eq {α β γ} {R : α → β → Prop} (p : β → γ) (q : α → γ) (hpq : ∀ a b, R a b → p b = q a) :
-    ∀ {l : List α} {l' : List β}, Forall2 R l l' → l'.map p = l.map q := by
-  intro l l' h
-  induction h with
-  | nil => rfl
-  | cons hh _ ih => simp [hpq _ _ hh, ih]
 
-theorem Forall2.pairwise {α β} {R : α → β → Prop} {S : α → α → Prop} {T : β → β → Prop}
-    (hST : ∀ a b a' b', R a b → R a' b' → S a a' → T b b') :
-    ∀ {l : List α} {l' : List β}, Forall2 R l l' → l.Pairwise S → l'.Pairwise T := by
-  intro l l' h
-  induction h with
-  | nil => intro _; exact List.Pairwise.nil
-  | @cons a b l l' hh hrest ih =>
-    intro hp
-    rw [List.pairwise_cons] at hp ⊢
-    refine ⟨?_, ih hp.2⟩
-    intro b' hb'
-    -- b' corresponds to some a' in l
-    have : ∃ a' ∈ l, R a' b' := by
-      clear ih hp
-      induction hrest with
-      | nil => simp at hb'
-      | cons h1 _ ih2 =>
-        rcases List.mem_cons.mp hb' with rfl | hb'
-        · exact ⟨_, List.mem_cons_self, h1⟩
-        · obtain ⟨x, hx, hr⟩ := ih2 hb'
-          exact ⟨x, List.mem_cons_of_mem _ hx, hr⟩
-    obtain ⟨a', ha', hr'⟩ := this
-    exact hST a b a' b' hh hr' (hp.1 a' ha')
 
 theorem zipIdx_filter_fst {α} (p : α → Bool) : ∀ (l : List α) (n : Nat),
     ((l.zipIdx n).filter (fun fi => p fi.1)).map (·.1) = l.filter p := by
@@ -990,17 +928,6 @@ theorem C01_presupposed_ilis (presup : Nat) (ss : List Synset) (db db' : Db) (h 
       rw [h3]; simp [hx]
     · exact h4 s hs hc
 
-theorem Forall2.exists_of_mem_left {α β} {R : α → β → Prop} : ∀ {l : List α} {l' : List β}, Forall2 R l l' →
-    ∀ a ∈ l, ∃ b ∈ l', R a b := by
-  intro l l' h
-  induction h with
-  | nil => intro a ha; simp at ha
-  | cons hr _ ih =>
-    intro a ha
-    rcases List.mem_cons.mp ha with rfl | ha
-    · exact ⟨_, List.mem_cons_self, hr⟩
-    · obtain ⟨b, hb, hrb⟩ := ih a ha
-      exact ⟨b, List.mem_cons_of_mem _ hb, hrb⟩
 
 theorem find_rowid_of_nodup (l : List RIli) (h : (l.map (·.rowid)).Nodup) (x : RIli) (hx : x ∈ l) :
     l.find? (fun y => y.rowid == x.rowid) = some x := by
@@ -1329,12 +1256,6 @@ theorem C01_synsets_end_to_end (norm : String → String) (dr : Nat) (db db' : D
 
 /-! ### end to end: `senses()` after `add` = the document's senses -/
 
-theorem Forall2.append {α β} {R : α → β → Prop} : ∀ {l1 : List α} {l1' : List β} {l2 : List α} {l2' : List β},
-    Forall2 R l1 l1' → Forall2 R l2 l2' → Forall2 R (l1 ++ l2) (l1' ++ l2') := by
-  intro l1 l1' l2 l2' h1 h2
-  induction h1 with
-  | nil => exact h2
-  | cons hh _ ih => exact Forall2.cons hh ih
 
 /-- `synsetRow` reads only the `synsets` table -/
 def synsetRowY (Y : List RSynset) (id : String) (lex : Nat) : Option Nat :=
@@ -1799,5 +1720,1082 @@ theorem C01_synsets_complete (db : Db) (lexids : List Nat) (r : RSynset) (hr : r
   unfold findSynsets
   simp only [List.isEmpty_nil, if_true, List.mem_map, List.mem_filter, Bool.and_eq_true]
   exact ⟨r, ⟨hr, by simp [hl]⟩, rfl⟩
+
+/-! ### end to end: `Synset.relations()` after `add` = the document's `<SynsetRelation>`s -/
+
+/-- the row function of `get_synset_relations` (`synsetRelations` = `DISTINCT` of its image) -/
+def relF (db : Db) (sources : List Nat) (types : List String) (lexids : List Nat) (r : RRel) : Option (RelData SynsetData) :=
+  if sources.contains r.source && inLex lexids r.lex then
+    match typeOk db types r.type, db.synsets.find? (fun x => x.rowid == r.target) with
+    | some n, some tgt => if inLex lexids tgt.lex then
+        some ({ name := n, lexicon := lexSpec db r.lex, md := r.md, source := r.source, target := synsetData db tgt } : RelData SynsetData)
+      else none
+    | _, _ => none
+  else none
+
+theorem synsetRelations_eq (db : Db) (sources : List Nat) (types : List String) (lexids : List Nat) :
+    synsetRelations db sources types lexids =
+      dedupBy (fun r => (r.name, r.lexicon, r.md, r.source, r.target.rowid)) (db.synrels.filterMap (relF db sources types lexids)) := rfl
+
+theorem filterMap_ite_some {α β} (c : α → Bool) (f : α → β) (l : List α) :
+    l.filterMap (fun a => if c a then some (f a) else none) = (l.filter c).map f := by
+  induction l with
+  | nil => rfl
+  | cons a t ih =>
+    simp only [List.filterMap_cons, List.filter_cons]
+    cases c a <;> simp [ih]
+
+/-- what `get_synset_relations` makes of a freshly written row -/
+theorem relF_new (db' : Db) (c : Ctx) (types : List String) (htypes : (types.isEmpty || types.contains "*") = true)
+    (sid : String) (x0 : Nat) (ss : Synset) (r : Relation) (row : RRel)
+    (hnY : (db'.synsets.map (·.rowid)).Nodup) (hnT : (db'.reltypes.map (·.1)).Nodup)
+    (hx0 : synsetRowY' db'.synsets sid (c.lid sid) = some x0)
+    (hrel : SynRelRowOf c (db'.synsets, db'.reltypes) ss r row) :
+    ∃ tr, db'.synsets.find? (fun y => y.id == r.target && y.lex == c.lid r.target) = some tr ∧ tr ∈ db'.synsets ∧
+      relF db' [x0] types [c.lexid] row =
+        if (ss.id == sid && c.lid r.target == c.lexid) then
+          some ⟨r.relType, lexSpec db' c.lexid, r.md, x0, synsetData db' tr⟩ else none := by
+  obtain ⟨hlex, hsrc, htgt, hty, hmd⟩ := hrel
+  simp only at hsrc htgt hty
+  obtain ⟨tr, hfind, htrY, htrid, htrlex, htrrow⟩ := synsetRowY'_some _ _ _ _ htgt
+  obtain ⟨sr, _, hsrY, hsrid, hsrlex, hsrrow⟩ := synsetRowY'_some _ _ _ _ hsrc
+  obtain ⟨s0, _, hs0Y, hs0id, hs0lex, hs0row⟩ := synsetRowY'_some _ _ _ _ hx0
+  refine ⟨tr, hfind, htrY, ?_⟩
+  have hname : typeOk db' types row.type = some r.relType := by
+    unfold typeOk
+    rw [lookupName_of_lookupId _ hnT _ _ hty]
+    simp only
+    rw [if_pos (by rw [Bool.or_eq_true]; exact Or.inl htypes)]
+  have hft : db'.synsets.find? (fun x => x.rowid == row.target) = some tr := by
+    rw [← htrrow]; exact find_by_rowid_Y _ hnY tr htrY
+  have hsource : ([x0].contains row.source) = (ss.id == sid) := by
+    by_cases e : ss.id = sid
+    · have : row.source = x0 := by
+        rw [e] at hsrc; rw [hsrc] at hx0; exact Option.some.inj hx0
+      simp [e, this]
+    · have : row.source ≠ x0 := by
+        intro q
+        have := mem_eq_of_rowid _ hnY sr hsrY s0 hs0Y (by rw [hsrrow, hs0row, q])
+        exact e (by rw [← hsrid, this, hs0id])
+      have q1 : (ss.id == sid) = false := by simpa using e
+      rw [q1]
+      simpa using this
+  unfold relF
+  rw [hsource, hname, hft]
+  simp only [hlex, inLex, List.contains_cons, List.contains_nil, Bool.or_false, beq_self_eq_true, Bool.and_true, htrlex, hmd]
+  have hsx : ss.id = sid → row.source = x0 := by
+    intro e
+    rw [e] at hsrc; rw [hsrc] at hx0; exact Option.some.inj hx0
+  by_cases e1 : ss.id = sid
+  · by_cases e2 : c.lid r.target = c.lexid
+    · simp [e1, e2, hsx e1]
+    · simp [e1, e2]
+  · simp [e1]
+
+/-- what a user sees of a relation: (type, target synset id, metadata) -/
+def obsSynRel (r : RelData SynsetData) : String × String × Option Meta := (r.name, r.target.id, r.md)
+/-- the same of a document relation -/
+def docRel (r : Relation) : String × String × Option Meta := (r.relType, r.target, r.md)
+
+/-- **C01, synset relations, end to end**: after a successful `add` of any lexicon, the relations
+that `get_synset_relations` reports, inside the new lexicon, for the synset with id `sid` are exactly
+the `<SynsetRelation>` elements that the document lists under that id whose target is resolved in
+the new lexicon — in document order, with type, target id and metadata unaltered, exact duplicates
+reported once — for documents of any size, on any store with unique rowids whose relation rows
+point at existing lexicons. -/
+theorem C01_synset_relations_end_to_end {norm : String → String} {dr : Nat} {db db' : Db} {l : Lexicon}
+    (t : AddTrace norm dr db db' l)
+    (hfkR : ∀ o ∈ db.synrels, o.lex ∈ db.lexicons.map (·.rowid))
+    (hnY : (db.synsets.map (·.rowid)).Nodup) (hnT : (db.reltypes.map (·.1)).Nodup)
+    (types : List String) (htypes : (types.isEmpty || types.contains "*") = true)
+    (sid : String) (x0 : Nat) (hx0 : synsetRow db' sid (t.ctx.lid sid) = some x0) :
+    (synsetRelations db' [x0] types [t.lexid]).map obsSynRel =
+      dedupBy id (((synRelPairs l).filter (fun p => p.1.id == sid && t.ctx.lid p.2.target == t.lexid)).map (fun p => docRel p.2)) := by
+  obtain ⟨hT, hY, rows, hrows, hF⟩ := addLexicon_synrel_table t
+  have k1 := insertLexicon_keeps_rels _ _ _ _ _ t.hlex
+  have hlexid : t.lexid = nextId (db.lexicons.map (·.rowid)) := (insertLexicon_frame _ _ _ _ _ t.hlex).2.2.1
+  have hnY' : (db'.synsets.map (·.rowid)).Nodup := by
+    rw [hY]
+    apply insertSynsets_nodupY _ _ _ _ t.hsyn
+    rw [k1.2.2.2.2.1]; exact hnY
+  have hnT' : (db'.reltypes.map (·.1)).Nodup := by rw [hT]; exact updateLookups_reltypes_nodup db l hnT
+  have hx0' : synsetRowY' db'.synsets sid (t.ctx.lid sid) = some x0 := hx0
+  have hclex : t.ctx.lexid = t.lexid := rfl
+  -- rows of other lexicons are not read
+  have hold : db.synrels.filterMap (relF db' [x0] types [t.lexid]) = [] := by
+    rw [List.filterMap_eq_nil_iff]
+    intro o ho
+    have hne : o.lex ≠ t.lexid := by
+      intro e
+      have := hfkR o ho
+      rw [e, hlexid] at this
+      exact nextId_not_mem _ this
+    unfold relF
+    have : inLex [t.lexid] o.lex = false := by
+      simp only [inLex, List.contains_cons, List.contains_nil, Bool.or_false]
+      simpa using hne
+    simp [this]
+  -- every element of the image comes from a document relation
+  have hchar : ∀ a ∈ rows.filterMap (relF db' [x0] types [t.lexid]), ∃ (p : Synset × Relation) (tr : RSynset),
+      db'.synsets.find? (fun y => y.id == p.2.target && y.lex == t.lexid) = some tr ∧ tr ∈ db'.synsets ∧
+      a = ⟨p.2.relType, lexSpec db' t.lexid, p.2.md, x0, synsetData db' tr⟩ := by
+    intro a ha
+    obtain ⟨row, hrow, hFa⟩ := List.mem_filterMap.mp ha
+    obtain ⟨p, _, hrel⟩ := Forall2.exists_of_mem_right hF row hrow
+    obtain ⟨tr, hfind, htrY, hEq⟩ := relF_new db' t.ctx types htypes sid x0 p.1 p.2 row hnY' hnT' hx0' hrel
+    rw [hclex] at hEq
+    rw [hEq] at hFa
+    split at hFa
+    · rename_i hc
+      simp only [Bool.and_eq_true, beq_iff_eq] at hc
+      rw [hc.2] at hfind
+      exact ⟨p, tr, hfind, htrY, (Option.some.inj hFa).symm⟩
+    · simp at hFa
+  rw [synsetRelations_eq, hrows, List.filterMap_append, hold, List.nil_append]
+  -- DISTINCT over the selected columns = first-occurrence de-duplication of what is observed
+  rw [← dedupBy_map_congr obsSynRel id (fun r => (r.name, r.lexicon, r.md, r.source, r.target.rowid))]
+  · congr 1
+    rw [List.map_filterMap]
+    rw [← filterMap_ite_some]
+    apply Forall2.filterMap_eq _ _ _ hF
+    intro p row hrel
+    obtain ⟨tr, hfind, htrY, hEq⟩ := relF_new db' t.ctx types htypes sid x0 p.1 p.2 row hnY' hnT' hx0' hrel
+    rw [hclex] at hEq
+    rw [hEq]
+    have htid : tr.id = p.2.target := by
+      have := List.find?_some hfind
+      simp only [Bool.and_eq_true, beq_iff_eq] at this
+      exact this.1
+    by_cases hc : (p.1.id == sid && t.ctx.lid p.2.target == t.lexid) = true
+    · simp only [hc, if_true, Option.map_some]
+      simp [obsSynRel, docRel, synsetData, htid]
+    · have : (p.1.id == sid && t.ctx.lid p.2.target == t.lexid) = false := by simpa using hc
+      simp [this]
+  · intro a ha b hb
+    obtain ⟨pa, ta, hfa, hta, rfl⟩ := hchar a ha
+    obtain ⟨pb, tb, hfb, htb, rfl⟩ := hchar b hb
+    have hia : ta.id = pa.2.target := by
+      have := List.find?_some hfa
+      simp only [Bool.and_eq_true, beq_iff_eq] at this
+      exact this.1
+    have hib : tb.id = pb.2.target := by
+      have := List.find?_some hfb
+      simp only [Bool.and_eq_true, beq_iff_eq] at this
+      exact this.1
+    simp only [id, obsSynRel, synsetData, Prod.mk.injEq]
+    constructor
+    · rintro ⟨h1, h2, h3⟩
+      rw [hia, hib] at h2
+      rw [h2] at hfa
+      rw [hfa] at hfb
+      have := Option.some.inj hfb
+      subst this
+      exact ⟨h1, trivial, h3, trivial, rfl⟩
+    · rintro ⟨h1, _, h3, _, h5⟩
+      have := mem_eq_of_rowid _ hnY' ta hta tb htb h5
+      subst this
+      exact ⟨h1, rfl, h3⟩
+
+/-- the same for a plain (non-extension) lexicon, stated without the trace: every id is resolved in
+the new lexicon, so all `<SynsetRelation>`s listed under the id are reported -/
+theorem C01_synset_relations_plain (norm : String → String) (dr : Nat) (db db' : Db) (l : Lexicon)
+    (h : addLexicon norm dr db l = .ok db') (hplain : l.ext = none)
+    (hfkR : ∀ o ∈ db.synrels, o.lex ∈ db.lexicons.map (·.rowid))
+    (hnY : (db.synsets.map (·.rowid)).Nodup) (hnT : (db.reltypes.map (·.1)).Nodup)
+    (sid : String) (x0 : Nat) (hx0 : synsetRow db' sid (nextId (db.lexicons.map (·.rowid))) = some x0) :
+    (synsetRelations db' [x0] [] [nextId (db.lexicons.map (·.rowid))]).map obsSynRel =
+      dedupBy id (((synRelPairs l).filter (fun p => p.1.id == sid)).map (fun p => docRel p.2)) := by
+  obtain ⟨t⟩ := addLexicon_split norm dr db db' l h
+  obtain ⟨_, _, hlexid, hext⟩ := insertLexicon_frame _ _ _ _ _ t.hlex
+  have hlexid : t.lexid = nextId (db.lexicons.map (·.rowid)) := hlexid
+  have hlid : ∀ i, t.ctx.lid i = t.lexid := by
+    intro i
+    unfold Ctx.lid AddTrace.ctx
+    simp [hext hplain]
+  have := C01_synset_relations_end_to_end t hfkR hnY hnT [] rfl sid x0 (by rw [hlid, hlexid]; exact hx0)
+  rw [hlexid] at this
+  rw [this]
+  congr 2
+  apply List.filter_congr
+  intro p _
+  rw [hlid, hlexid]
+  simp
+
+/-! non-vacuity: a lexicon with a repeated relation, a self-loop and two relation types; the add
+succeeds on the empty store and the theorem's right-hand side is what the model's query returns -/
+def relLex : Lexicon :=
+  { id := "r", version := "1", label := "R", language := "en", email := "e", license := "l",
+    synsets := [{ id := "a", pos := some "n", relations := [{ target := "b", relType := "hypernym" }, { target := "a", relType := "similar" },
+                                                            { target := "b", relType := "hypernym" }, { target := "c", relType := "hypernym" }] },
+                { id := "b", pos := some "n", relations := [{ target := "a", relType := "hyponym" }] },
+                { id := "c", pos := some "n" }] }
+
+example : (match addLexicon (fun s => s) 127 Db.empty relLex with
+    | .ok db' => (synsetRow db' "a" 1, ((synsetRelations db' [1] [] [1]).map obsSynRel).map (fun o => (o.1, o.2.1)))
+    | .error _ => (none, [])) =
+    (some 1, [("hypernym", "b"), ("similar", "a"), ("hypernym", "c")]) := by decide +kernel
+
+/-! ### end to end: `Sense.relations()` after `add` = the document's sense→sense `<SenseRelation>`s -/
+
+/-- the row function of `get_sense_relations` -/
+def srelF (db : Db) (source : Nat) (types : List String) (lexids : List Nat) (r : RRel) : Option (RelData SenseData) :=
+  if r.source == source && inLex lexids r.lex then
+    match typeOk db types r.type, db.senses.find? (fun x => x.rowid == r.target) with
+    | some n, some tgt => if inLex lexids tgt.lex then
+        (senseData db tgt).map (fun d => ({ name := n, lexicon := lexSpec db r.lex, md := r.md, source := r.source, target := d } : RelData SenseData))
+      else none
+    | _, _ => none
+  else none
+
+theorem senseRelations_eq (db : Db) (source : Nat) (types : List String) (lexids : List Nat) :
+    senseRelations db source types lexids =
+      dedupBy (fun r => (r.name, r.lexicon, r.md, r.target.rowid)) (db.senserels.filterMap (srelF db source types lexids)) := rfl
+
+theorem senseRowS'_some (S : List RSense) (id : String) (lex x : Nat) (h : senseRowS' S id lex = some x) :
+    ∃ r, S.find? (fun r => r.id == id && r.lex == lex) = some r ∧ r ∈ S ∧ r.id = id ∧ r.lex = lex ∧ r.rowid = x := by
+  unfold senseRowS' at h
+  cases hf : S.find? (fun r => r.id == id && r.lex == lex) with
+  | none => simp [hf] at h
+  | some r =>
+    simp only [hf, Option.map_some, Option.some.injEq] at h
+    have hp := List.find?_some hf
+    simp only [Bool.and_eq_true, beq_iff_eq] at hp
+    exact ⟨r, rfl, List.mem_of_find?_eq_some hf, hp.1, hp.2, h⟩
+
+/-- what `get_sense_relations` makes of a freshly written row -/
+theorem srelF_new (db' : Db) (c : Ctx) (types : List String) (htypes : (types.isEmpty || types.contains "*") = true)
+    (sid : String) (x0 : Nat) (p : String × Relation) (row : RRel)
+    (hnS : (db'.senses.map (·.rowid)).Nodup) (hnT : (db'.reltypes.map (·.1)).Nodup)
+    (hsd : ∀ tr ∈ db'.senses, tr.lex = c.lexid → ∃ d, senseData db' tr = some d ∧ d.id = tr.id ∧ d.rowid = tr.rowid)
+    (hx0 : senseRowS' db'.senses sid (c.lid sid) = some x0)
+    (hrel : SenseRelRowOf c (db'.senses, db'.reltypes) p row) :
+    ∃ tr, db'.senses.find? (fun y => y.id == p.2.target && y.lex == c.lid p.2.target) = some tr ∧ tr ∈ db'.senses ∧
+      (c.lid p.2.target = c.lexid → ∃ d, senseData db' tr = some d ∧ d.id = tr.id ∧ d.rowid = tr.rowid ∧
+        srelF db' x0 types [c.lexid] row = if (p.1 == sid) then some ⟨p.2.relType, lexSpec db' c.lexid, p.2.md, x0, d⟩ else none) ∧
+      (c.lid p.2.target ≠ c.lexid → srelF db' x0 types [c.lexid] row = none) := by
+  obtain ⟨hlex, hsrc, htgt, hty, hmd⟩ := hrel
+  simp only at hsrc htgt hty
+  obtain ⟨tr, hfind, htrS, htrid, htrlex, htrrow⟩ := senseRowS'_some _ _ _ _ htgt
+  obtain ⟨sr, _, hsrS, hsrid, hsrlex, hsrrow⟩ := senseRowS'_some _ _ _ _ hsrc
+  obtain ⟨s0, _, hs0S, hs0id, hs0lex, hs0row⟩ := senseRowS'_some _ _ _ _ hx0
+  refine ⟨tr, hfind, htrS, ?_, ?_⟩
+  all_goals
+    have hname : typeOk db' types row.type = some p.2.relType := by
+      unfold typeOk
+      rw [lookupName_of_lookupId _ hnT _ _ hty]
+      simp only
+      rw [if_pos (by rw [Bool.or_eq_true]; exact Or.inl htypes)]
+    have hft : db'.senses.find? (fun x => x.rowid == row.target) = some tr := by
+      rw [← htrrow]; exact find_by_key (·.rowid) _ hnS tr htrS
+    have hsource : (row.source == x0) = (p.1 == sid) := by
+      by_cases e : p.1 = sid
+      · have : row.source = x0 := by
+          rw [e] at hsrc; rw [hsrc] at hx0; exact Option.some.inj hx0
+        simp [e, this]
+      · have : row.source ≠ x0 := by
+          intro q
+          have := mem_eq_of_key (·.rowid) _ hnS sr hsrS s0 hs0S (by rw [hsrrow, hs0row, q])
+          exact e (by rw [← hsrid, this, hs0id])
+        have q1 : (p.1 == sid) = false := by simpa using e
+        rw [q1]
+        simpa using this
+  · intro hl
+    obtain ⟨d, hd, hdi, hdr⟩ := hsd tr htrS (by rw [htrlex, hl])
+    refine ⟨d, hd, hdi, hdr, ?_⟩
+    have hsx : p.1 = sid → row.source = x0 := by
+      intro e
+      rw [e] at hsrc; rw [hsrc] at hx0; exact Option.some.inj hx0
+    unfold srelF
+    rw [hsource, hname, hft]
+    simp only [hlex, inLex, List.contains_cons, List.contains_nil, Bool.or_false, beq_self_eq_true, Bool.and_true, htrlex, hmd, hl, hd]
+    by_cases e1 : p.1 = sid
+    · simp [e1, hsx e1]
+    · simp [e1]
+  · intro hl
+    unfold srelF
+    rw [hname, hft]
+    have : (c.lid p.2.target == c.lexid) = false := by simpa using hl
+    simp only [inLex, htrlex, List.contains_cons, List.contains_nil, Bool.or_false, this]
+    split <;> simp
+
+def obsSenseRel (r : RelData SenseData) : String × String × Option Meta := (r.name, r.target.id, r.md)
+
+/-- **C01, sense relations, end to end**: after a successful `add` of any lexicon, the sense→sense
+relations that `get_sense_relations` reports, inside the new lexicon, for the sense with id `sid`
+are exactly the `<SenseRelation>` elements the document lists under that sense id whose target is a
+sense resolved in the new lexicon — in document order, with type, target id and metadata unaltered,
+exact duplicates once. -/
+theorem C01_sense_relations_end_to_end {norm : String → String} {dr : Nat} {db db' : Db} {l : Lexicon}
+    (t : AddTrace norm dr db db' l)
+    (hfkR : ∀ o ∈ db.senserels, o.lex ∈ db.lexicons.map (·.rowid))
+    (hfkS : ∀ o ∈ db.senses, o.lex ∈ db.lexicons.map (·.rowid))
+    (hnS : (db.senses.map (·.rowid)).Nodup) (hnE : (db.entries.map (·.rowid)).Nodup)
+    (hnY : (db.synsets.map (·.rowid)).Nodup) (hnT : (db.reltypes.map (·.1)).Nodup)
+    (types : List String) (htypes : (types.isEmpty || types.contains "*") = true)
+    (sid : String) (x0 : Nat) (hx0 : senseRow db' sid (t.ctx.lid sid) = some x0) :
+    (senseRelations db' x0 types [t.lexid]).map obsSenseRel =
+      dedupBy id (((senseRelPairs l).filter (fun p => p.1 == sid && t.ctx.lid p.2.target == t.lexid)).map (fun p => docRel p.2)) := by
+  obtain ⟨hT, rows, hrows, hF⟩ := addLexicon_senserel_table t
+  obtain ⟨hE, hY, srows, hsrows, hSF, hnodS⟩ := addLexicon_sense_table t
+  have k1 := insertLexicon_keeps_rels _ _ _ _ _ t.hlex
+  obtain ⟨g1, g2, g3⟩ := insertLexicon_frame2 _ _ _ _ _ t.hlex
+  have hlexid : t.lexid = nextId (db.lexicons.map (·.rowid)) := (insertLexicon_frame _ _ _ _ _ t.hlex).2.2.1
+  have hnY' : (db'.synsets.map (·.rowid)).Nodup := by
+    rw [hY]
+    apply insertSynsets_nodupY _ _ _ _ t.hsyn
+    rw [g2]; exact hnY
+  have hnE' : (db'.entries.map (·.rowid)).Nodup := by
+    rw [hE]
+    apply insertEntries_nodupE _ _ _ _ t.hent
+    rw [(keepsF_insertSynsets l _ _ _ t.hsyn).1, g3]; exact hnE
+  have hnS' : (db'.senses.map (·.rowid)).Nodup := hnodS hnS
+  have hnT' : (db'.reltypes.map (·.1)).Nodup := by rw [hT]; exact updateLookups_reltypes_nodup db l hnT
+  have hx0' : senseRowS' db'.senses sid (t.ctx.lid sid) = some x0 := hx0
+  have hclex : t.ctx.lexid = t.lexid := rfl
+  have hfresh : ∀ o ∈ db.senses, o.lex ≠ t.lexid := by
+    intro o ho e
+    have := hfkS o ho
+    rw [e, hlexid] at this
+    exact nextId_not_mem _ this
+  -- senses of the new lexicon decode
+  have hsd : ∀ tr ∈ db'.senses, tr.lex = t.ctx.lexid → ∃ d, senseData db' tr = some d ∧ d.id = tr.id ∧ d.rowid = tr.rowid := by
+    intro tr htr hl
+    rw [hsrows] at htr
+    rcases List.mem_append.mp htr with ho | hn
+    · exact absurd hl (hfresh tr ho)
+    · obtain ⟨p, _, hp⟩ := Forall2.exists_of_mem_right hSF tr hn
+      obtain ⟨_, _, _, he, hy⟩ := hp
+      exact ⟨_, senseData_resolve db' tr p.1.id p.2.1.synset _ _ he hy hnE' hnY', rfl, rfl⟩
+  -- rows of other lexicons are not read
+  have hold : db.senserels.filterMap (srelF db' x0 types [t.lexid]) = [] := by
+    rw [List.filterMap_eq_nil_iff]
+    intro o ho
+    have hne : o.lex ≠ t.lexid := by
+      intro e
+      have := hfkR o ho
+      rw [e, hlexid] at this
+      exact nextId_not_mem _ this
+    unfold srelF
+    have : inLex [t.lexid] o.lex = false := by
+      simp only [inLex, List.contains_cons, List.contains_nil, Bool.or_false]
+      simpa using hne
+    simp [this]
+  have hchar : ∀ a ∈ rows.filterMap (srelF db' x0 types [t.lexid]), ∃ (p : String × Relation) (tr : RSense) (d : SenseData),
+      db'.senses.find? (fun y => y.id == p.2.target && y.lex == t.lexid) = some tr ∧ tr ∈ db'.senses ∧
+      d.id = tr.id ∧ d.rowid = tr.rowid ∧ a = ⟨p.2.relType, lexSpec db' t.lexid, p.2.md, x0, d⟩ := by
+    intro a ha
+    obtain ⟨row, hrow, hFa⟩ := List.mem_filterMap.mp ha
+    obtain ⟨p, _, hrel⟩ := Forall2.exists_of_mem_right hF row hrow
+    obtain ⟨tr, hfind, htrS, hyes, hno⟩ := srelF_new db' t.ctx types htypes sid x0 p row hnS' hnT' hsd hx0' hrel
+    by_cases hl : t.ctx.lid p.2.target = t.ctx.lexid
+    · obtain ⟨d, _, hdi, hdr, hEq⟩ := hyes hl
+      rw [hclex] at hEq
+      rw [hEq] at hFa
+      split at hFa
+      · rw [hl, hclex] at hfind
+        exact ⟨p, tr, d, hfind, htrS, hdi, hdr, (Option.some.inj hFa).symm⟩
+      · simp at hFa
+    · have := hno hl
+      rw [hclex] at this
+      rw [this] at hFa
+      simp at hFa
+  rw [senseRelations_eq, hrows, List.filterMap_append, hold, List.nil_append]
+  rw [← dedupBy_map_congr obsSenseRel id (fun r => (r.name, r.lexicon, r.md, r.target.rowid))]
+  · congr 1
+    rw [List.map_filterMap]
+    rw [← filterMap_ite_some]
+    apply Forall2.filterMap_eq _ _ _ hF
+    intro p row hrel
+    obtain ⟨tr, hfind, htrS, hyes, hno⟩ := srelF_new db' t.ctx types htypes sid x0 p row hnS' hnT' hsd hx0' hrel
+    have htid : tr.id = p.2.target := by
+      have := List.find?_some hfind
+      simp only [Bool.and_eq_true, beq_iff_eq] at this
+      exact this.1
+    by_cases hl : t.ctx.lid p.2.target = t.ctx.lexid
+    · obtain ⟨d, _, hdi, _, hEq⟩ := hyes hl
+      rw [hclex] at hEq hl
+      rw [hEq]
+      by_cases hc : p.1 = sid
+      · simp [hc, hl, obsSenseRel, docRel, hdi, htid]
+      · simp [hc]
+    · have := hno hl
+      rw [hclex] at this hl
+      rw [this]
+      simp [hl]
+  · intro a ha b hb
+    obtain ⟨pa, ta, da, hfa, hta, hdia, hdra, rfl⟩ := hchar a ha
+    obtain ⟨pb, tb, db2, hfb, htb, hdib, hdrb, rfl⟩ := hchar b hb
+    have hia : ta.id = pa.2.target := by
+      have := List.find?_some hfa
+      simp only [Bool.and_eq_true, beq_iff_eq] at this
+      exact this.1
+    have hib : tb.id = pb.2.target := by
+      have := List.find?_some hfb
+      simp only [Bool.and_eq_true, beq_iff_eq] at this
+      exact this.1
+    simp only [id, obsSenseRel, Prod.mk.injEq]
+    constructor
+    · rintro ⟨h1, h2, h3⟩
+      rw [hdia, hdib, hia, hib] at h2
+      rw [h2] at hfa
+      rw [hfa] at hfb
+      have := Option.some.inj hfb
+      subst this
+      exact ⟨h1, trivial, h3, by rw [hdra, hdrb]⟩
+    · rintro ⟨h1, _, h3, h5⟩
+      rw [hdra, hdrb] at h5
+      have := mem_eq_of_key (·.rowid) _ hnS' ta hta tb htb h5
+      subst this
+      exact ⟨h1, by rw [hdia, hdib], h3⟩
+
+example : (match addLexicon (fun s => s) 127 Db.empty
+      { id := "r", version := "1", label := "R", language := "en", email := "e", license := "l",
+        entries := [{ id := "e1", lemma := some { form := "hot", pos := "a" },
+                      senses := [{ id := "s1", synset := "y1", relations := [{ target := "s2", relType := "antonym" },
+                                   { target := "s2", relType := "antonym" }, { target := "y1", relType := "domain_topic" }] }] },
+                    { id := "e2", lemma := some { form := "cold", pos := "a" },
+                      senses := [{ id := "s2", synset := "y1", relations := [{ target := "s1", relType := "antonym" }] }] }],
+        synsets := [{ id := "y1", pos := some "a" }] } with
+    | .ok db' => (senseRow db' "s1" 1, ((senseRelations db' 1 [] [1]).map obsSenseRel).map (fun o => (o.1, o.2.1)))
+    | .error _ => (none, [])) = (some 1, [("antonym", "s2")]) := by decide +kernel
+
+/-! ### end to end: `Sense.get_related_synsets()` after `add` = the document's sense→synset relations -/
+
+/-- the row function of `get_sense_synset_relations` -/
+def ssrelF (db : Db) (source : Nat) (types : List String) (lexids : List Nat) (r : RRel) : Option (RelData SynsetData) :=
+  if r.source == source && inLex lexids r.lex then
+    match typeOk db types r.type, db.synsets.find? (fun x => x.rowid == r.target) with
+    | some n, some tgt => if inLex lexids tgt.lex then
+        some ({ name := n, lexicon := lexSpec db r.lex, md := r.md, source := r.source, target := synsetData db tgt } : RelData SynsetData)
+      else none
+    | _, _ => none
+  else none
+
+theorem senseSynsetRelations_eq (db : Db) (source : Nat) (types : List String) (lexids : List Nat) :
+    senseSynsetRelations db source types lexids =
+      dedupBy (fun r => (r.name, r.lexicon, r.md, r.source, r.target.rowid)) (db.sensesynrels.filterMap (ssrelF db source types lexids)) := rfl
+
+theorem ssrelF_new (db' : Db) (c : Ctx) (types : List String) (htypes : (types.isEmpty || types.contains "*") = true)
+    (sid : String) (x0 : Nat) (p : String × Relation) (row : RRel)
+    (hnS : (db'.senses.map (·.rowid)).Nodup) (hnY : (db'.synsets.map (·.rowid)).Nodup) (hnT : (db'.reltypes.map (·.1)).Nodup)
+    (hx0 : senseRowS' db'.senses sid (c.lid sid) = some x0)
+    (hrel : SenseSynRelRowOf c (db'.senses, db'.synsets, db'.reltypes) p row) :
+    ∃ tr, db'.synsets.find? (fun y => y.id == p.2.target && y.lex == c.lid p.2.target) = some tr ∧ tr ∈ db'.synsets ∧
+      ssrelF db' x0 types [c.lexid] row =
+        if (p.1 == sid && c.lid p.2.target == c.lexid) then
+          some ⟨p.2.relType, lexSpec db' c.lexid, p.2.md, x0, synsetData db' tr⟩ else none := by
+  obtain ⟨hlex, hsrc, htgt, hty, hmd⟩ := hrel
+  simp only at hsrc htgt hty
+  obtain ⟨tr, hfind, htrY, htrid, htrlex, htrrow⟩ := synsetRowY'_some _ _ _ _ htgt
+  obtain ⟨sr, _, hsrS, hsrid, hsrlex, hsrrow⟩ := senseRowS'_some _ _ _ _ hsrc
+  obtain ⟨s0, _, hs0S, hs0id, hs0lex, hs0row⟩ := senseRowS'_some _ _ _ _ hx0
+  refine ⟨tr, hfind, htrY, ?_⟩
+  have hname : typeOk db' types row.type = some p.2.relType := by
+    unfold typeOk
+    rw [lookupName_of_lookupId _ hnT _ _ hty]
+    simp only
+    rw [if_pos (by rw [Bool.or_eq_true]; exact Or.inl htypes)]
+  have hft : db'.synsets.find? (fun x => x.rowid == row.target) = some tr := by
+    rw [← htrrow]; exact find_by_rowid_Y _ hnY tr htrY
+  have hsource : (row.source == x0) = (p.1 == sid) := by
+    by_cases e : p.1 = sid
+    · have : row.source = x0 := by
+        rw [e] at hsrc; rw [hsrc] at hx0; exact Option.some.inj hx0
+      simp [e, this]
+    · have : row.source ≠ x0 := by
+        intro q
+        have := mem_eq_of_key (·.rowid) _ hnS sr hsrS s0 hs0S (by rw [hsrrow, hs0row, q])
+        exact e (by rw [← hsrid, this, hs0id])
+      have q1 : (p.1 == sid) = false := by simpa using e
+      rw [q1]
+      simpa using this
+  have hsx : p.1 = sid → row.source = x0 := by
+    intro e
+    rw [e] at hsrc; rw [hsrc] at hx0; exact Option.some.inj hx0
+  unfold ssrelF
+  rw [hsource, hname, hft]
+  simp only [hlex, inLex, List.contains_cons, List.contains_nil, Bool.or_false, beq_self_eq_true, Bool.and_true, htrlex, hmd]
+  by_cases e1 : p.1 = sid
+  · by_cases e2 : c.lid p.2.target = c.lexid
+    · simp [e1, e2, hsx e1]
+    · simp [e1, e2]
+  · simp [e1]
+
+/-- **C01, sense→synset relations, end to end** -/
+theorem C01_sense_synset_relations_end_to_end {norm : String → String} {dr : Nat} {db db' : Db} {l : Lexicon}
+    (t : AddTrace norm dr db db' l)
+    (hfkR : ∀ o ∈ db.sensesynrels, o.lex ∈ db.lexicons.map (·.rowid))
+    (hnS : (db.senses.map (·.rowid)).Nodup)
+    (hnY : (db.synsets.map (·.rowid)).Nodup) (hnT : (db.reltypes.map (·.1)).Nodup)
+    (types : List String) (htypes : (types.isEmpty || types.contains "*") = true)
+    (sid : String) (x0 : Nat) (hx0 : senseRow db' sid (t.ctx.lid sid) = some x0) :
+    (senseSynsetRelations db' x0 types [t.lexid]).map obsSynRel =
+      dedupBy id (((senseSynRelPairs l).filter (fun p => p.1 == sid && t.ctx.lid p.2.target == t.lexid)).map (fun p => docRel p.2)) := by
+  obtain ⟨hT, rows, hrows, hF⟩ := addLexicon_sensesynrel_table t
+  obtain ⟨_, hY, _, _, _, hnodS⟩ := addLexicon_sense_table t
+  obtain ⟨_, g2, _⟩ := insertLexicon_frame2 _ _ _ _ _ t.hlex
+  have hlexid : t.lexid = nextId (db.lexicons.map (·.rowid)) := (insertLexicon_frame _ _ _ _ _ t.hlex).2.2.1
+  have hnY' : (db'.synsets.map (·.rowid)).Nodup := by
+    rw [hY]
+    apply insertSynsets_nodupY _ _ _ _ t.hsyn
+    rw [g2]; exact hnY
+  have hnS' : (db'.senses.map (·.rowid)).Nodup := hnodS hnS
+  have hnT' : (db'.reltypes.map (·.1)).Nodup := by rw [hT]; exact updateLookups_reltypes_nodup db l hnT
+  have hx0' : senseRowS' db'.senses sid (t.ctx.lid sid) = some x0 := hx0
+  have hclex : t.ctx.lexid = t.lexid := rfl
+  have hold : db.sensesynrels.filterMap (ssrelF db' x0 types [t.lexid]) = [] := by
+    rw [List.filterMap_eq_nil_iff]
+    intro o ho
+    have hne : o.lex ≠ t.lexid := by
+      intro e
+      have := hfkR o ho
+      rw [e, hlexid] at this
+      exact nextId_not_mem _ this
+    unfold ssrelF
+    have : inLex [t.lexid] o.lex = false := by
+      simp only [inLex, List.contains_cons, List.contains_nil, Bool.or_false]
+      simpa using hne
+    simp [this]
+  have hchar : ∀ a ∈ rows.filterMap (ssrelF db' x0 types [t.lexid]), ∃ (p : String × Relation) (tr : RSynset),
+      db'.synsets.find? (fun y => y.id == p.2.target && y.lex == t.lexid) = some tr ∧ tr ∈ db'.synsets ∧
+      a = ⟨p.2.relType, lexSpec db' t.lexid, p.2.md, x0, synsetData db' tr⟩ := by
+    intro a ha
+    obtain ⟨row, hrow, hFa⟩ := List.mem_filterMap.mp ha
+    obtain ⟨p, _, hrel⟩ := Forall2.exists_of_mem_right hF row hrow
+    obtain ⟨tr, hfind, htrY, hEq⟩ := ssrelF_new db' t.ctx types htypes sid x0 p row hnS' hnY' hnT' hx0' hrel
+    rw [hclex] at hEq
+    rw [hEq] at hFa
+    split at hFa
+    · rename_i hc
+      simp only [Bool.and_eq_true, beq_iff_eq] at hc
+      rw [hc.2] at hfind
+      exact ⟨p, tr, hfind, htrY, (Option.some.inj hFa).symm⟩
+    · simp at hFa
+  rw [senseSynsetRelations_eq, hrows, List.filterMap_append, hold, List.nil_append]
+  rw [← dedupBy_map_congr obsSynRel id (fun r => (r.name, r.lexicon, r.md, r.source, r.target.rowid))]
+  · congr 1
+    rw [List.map_filterMap]
+    rw [← filterMap_ite_some]
+    apply Forall2.filterMap_eq _ _ _ hF
+    intro p row hrel
+    obtain ⟨tr, hfind, htrY, hEq⟩ := ssrelF_new db' t.ctx types htypes sid x0 p row hnS' hnY' hnT' hx0' hrel
+    rw [hclex] at hEq
+    rw [hEq]
+    have htid : tr.id = p.2.target := by
+      have := List.find?_some hfind
+      simp only [Bool.and_eq_true, beq_iff_eq] at this
+      exact this.1
+    by_cases hc : (p.1 == sid && t.ctx.lid p.2.target == t.lexid) = true
+    · simp only [hc, if_true, Option.map_some]
+      simp [obsSynRel, docRel, synsetData, htid]
+    · have : (p.1 == sid && t.ctx.lid p.2.target == t.lexid) = false := by simpa using hc
+      simp [this]
+  · intro a ha b hb
+    obtain ⟨pa, ta, hfa, hta, rfl⟩ := hchar a ha
+    obtain ⟨pb, tb, hfb, htb, rfl⟩ := hchar b hb
+    have hia : ta.id = pa.2.target := by
+      have := List.find?_some hfa
+      simp only [Bool.and_eq_true, beq_iff_eq] at this
+      exact this.1
+    have hib : tb.id = pb.2.target := by
+      have := List.find?_some hfb
+      simp only [Bool.and_eq_true, beq_iff_eq] at this
+      exact this.1
+    simp only [id, obsSynRel, synsetData, Prod.mk.injEq]
+    constructor
+    · rintro ⟨h1, h2, h3⟩
+      rw [hia, hib] at h2
+      rw [h2] at hfa
+      rw [hfa] at hfb
+      have := Option.some.inj hfb
+      subst this
+      exact ⟨h1, trivial, h3, trivial, rfl⟩
+    · rintro ⟨h1, _, h3, _, h5⟩
+      have := mem_eq_of_rowid _ hnY' ta hta tb htb h5
+      subst this
+      exact ⟨h1, rfl, h3⟩
+
+/-! ### end to end: definitions and examples after `add` = the document's -/
+
+theorem filter_owned_append {ρ} (old rows : List ρ) (owner lex : ρ → Nat) (x0 lexid : Nat)
+    (hold : ∀ o ∈ old, lex o ≠ lexid) (hnew : ∀ r ∈ rows, lex r = lexid) :
+    (old ++ rows).filter (fun r => owner r == x0 && inLex [lexid] (lex r)) = rows.filter (fun r => owner r == x0) := by
+  rw [List.filter_append]
+  have e1 : old.filter (fun r => owner r == x0 && inLex [lexid] (lex r)) = [] := by
+    rw [List.filter_eq_nil_iff]
+    intro o ho
+    have := hold o ho
+    simp [inLex, this]
+  rw [e1, List.nil_append]
+  apply List.filter_congr
+  intro r hr
+  simp [inLex, hnew r hr]
+
+theorem Forall2.forall_right {α β} {R : α → β → Prop} {P : β → Prop} (h : ∀ a b, R a b → P b) :
+    ∀ {l : List α} {l' : List β}, Forall2 R l l' → ∀ b ∈ l', P b := by
+  intro l l' hh b hb
+  obtain ⟨a, _, hr⟩ := Forall2.exists_of_mem_right hh b hb
+  exact h a b hr
+
+/-- **C01, definitions, end to end**: the definitions `get_definitions` reports, inside the new
+lexicon, for the synset with id `sid` are exactly the `<Definition>`s the document lists under that
+id, in order, with text and language unaltered. -/
+theorem C01_definitions_end_to_end {norm : String → String} {dr : Nat} {db db' : Db} {l : Lexicon}
+    (t : AddTrace norm dr db db' l)
+    (hfk : ∀ o ∈ db.defs, o.lex ∈ db.lexicons.map (·.rowid)) (hnY : (db.synsets.map (·.rowid)).Nodup)
+    (sid : String) (x0 : Nat) (hx0 : synsetRow db' sid (t.ctx.lid sid) = some x0) :
+    (definitions db' x0 [t.lexid]).map (fun d => (d.1, d.2.1)) =
+      ((defPairs l).filter (fun p => p.1.id == sid)).map (fun p => (p.2.text, p.2.language)) := by
+  obtain ⟨⟨rows, hrows, hF⟩, _, _⟩ := addLexicon_defs_tables t
+  obtain ⟨_, hY, _⟩ := addLexicon_synrel_table t
+  obtain ⟨_, g2, _⟩ := insertLexicon_frame2 _ _ _ _ _ t.hlex
+  have hlexid : t.lexid = nextId (db.lexicons.map (·.rowid)) := (insertLexicon_frame _ _ _ _ _ t.hlex).2.2.1
+  have hnY' : (db'.synsets.map (·.rowid)).Nodup := by
+    rw [hY]
+    apply insertSynsets_nodupY _ _ _ _ t.hsyn
+    rw [g2]; exact hnY
+  unfold definitions
+  rw [List.map_map, hrows]
+  rw [filter_owned_append db.defs rows (·.synset) (·.lex) x0 t.lexid
+    (fun o ho e => by have := hfk o ho; rw [e, hlexid] at this; exact nextId_not_mem _ this)
+    (Forall2.forall_right (fun _ _ hr => hr.1) hF)]
+  show List.map (fun d : RDef => (d.text, d.language)) _ = _
+  exact owned_rows_filter (fun i => synsetRowY' db'.synsets i (t.ctx.lid i)) (synsetRowY'_inj _ hnY' _)
+    (·.synset) (fun (p : Synset × Definition) => p.1.id) (fun d : RDef => (d.text, d.language)) (fun p => (p.2.text, p.2.language))
+    (Forall2.imp (fun p r hr => ⟨hr.2.1, by rw [hr.2.2.1, hr.2.2.2.1]⟩) hF) sid x0 hx0
+
+/-- **C01, synset examples, end to end** -/
+theorem C01_synset_examples_end_to_end {norm : String → String} {dr : Nat} {db db' : Db} {l : Lexicon}
+    (t : AddTrace norm dr db db' l)
+    (hfk : ∀ o ∈ db.synexs, o.lex ∈ db.lexicons.map (·.rowid)) (hnY : (db.synsets.map (·.rowid)).Nodup)
+    (sid : String) (x0 : Nat) (hx0 : synsetRow db' sid (t.ctx.lid sid) = some x0) :
+    (synsetExamples db' x0 [t.lexid]).map (fun x => (x.text, x.language, x.md)) =
+      ((synExPairs l).filter (fun p => p.1.id == sid)).map (fun p => (p.2.text, p.2.language, p.2.md)) := by
+  obtain ⟨_, ⟨rows, hrows, hF⟩, _⟩ := addLexicon_defs_tables t
+  obtain ⟨_, hY, _⟩ := addLexicon_synrel_table t
+  obtain ⟨_, g2, _⟩ := insertLexicon_frame2 _ _ _ _ _ t.hlex
+  have hlexid : t.lexid = nextId (db.lexicons.map (·.rowid)) := (insertLexicon_frame _ _ _ _ _ t.hlex).2.2.1
+  have hnY' : (db'.synsets.map (·.rowid)).Nodup := by
+    rw [hY]
+    apply insertSynsets_nodupY _ _ _ _ t.hsyn
+    rw [g2]; exact hnY
+  unfold synsetExamples
+  rw [hrows]
+  rw [filter_owned_append db.synexs rows (·.owner) (·.lex) x0 t.lexid
+    (fun o ho e => by have := hfk o ho; rw [e, hlexid] at this; exact nextId_not_mem _ this)
+    (Forall2.forall_right (fun _ _ hr => hr.1) hF)]
+  exact owned_rows_filter (fun i => synsetRowY' db'.synsets i (t.ctx.lid i)) (synsetRowY'_inj _ hnY' _)
+    (·.owner) (fun (p : Synset × Example) => p.1.id) (fun x : RExample => (x.text, x.language, x.md)) (fun p => (p.2.text, p.2.language, p.2.md))
+    (Forall2.imp (fun p r hr => ⟨hr.2.1, by rw [hr.2.2.1, hr.2.2.2.1, hr.2.2.2.2]⟩) hF) sid x0 hx0
+
+/-- **C01, sense examples, end to end** -/
+theorem C01_sense_examples_end_to_end {norm : String → String} {dr : Nat} {db db' : Db} {l : Lexicon}
+    (t : AddTrace norm dr db db' l)
+    (hfk : ∀ o ∈ db.sensexs, o.lex ∈ db.lexicons.map (·.rowid)) (hnS : (db.senses.map (·.rowid)).Nodup)
+    (sid : String) (x0 : Nat) (hx0 : senseRow db' sid (t.ctx.lid sid) = some x0) :
+    (senseExamples db' x0 [t.lexid]).map (fun x => (x.text, x.language, x.md)) =
+      ((senseExPairs l).filter (fun p => p.1.id == sid)).map (fun p => (p.2.text, p.2.language, p.2.md)) := by
+  obtain ⟨_, _, ⟨rows, hrows, hF⟩⟩ := addLexicon_defs_tables t
+  obtain ⟨_, _, _, _, _, hnodS⟩ := addLexicon_sense_table t
+  have hlexid : t.lexid = nextId (db.lexicons.map (·.rowid)) := (insertLexicon_frame _ _ _ _ _ t.hlex).2.2.1
+  have hnS' : (db'.senses.map (·.rowid)).Nodup := hnodS hnS
+  unfold senseExamples
+  rw [hrows]
+  rw [filter_owned_append db.sensexs rows (·.owner) (·.lex) x0 t.lexid
+    (fun o ho e => by have := hfk o ho; rw [e, hlexid] at this; exact nextId_not_mem _ this)
+    (Forall2.forall_right (fun _ _ hr => hr.1) hF)]
+  exact owned_rows_filter (fun i => senseRowS' db'.senses i (t.ctx.lid i)) (senseRowS'_inj _ hnS' _)
+    (·.owner) (fun (p : Sense × Example) => p.1.id) (fun x : RExample => (x.text, x.language, x.md)) (fun p => (p.2.text, p.2.language, p.2.md))
+    (Forall2.imp (fun p r hr => ⟨hr.2.1, by rw [hr.2.2.1, hr.2.2.2.1, hr.2.2.2.2]⟩) hF) sid x0 hx0
+
+/-- **C01, counts, end to end** -/
+theorem C01_counts_end_to_end {norm : String → String} {dr : Nat} {db db' : Db} {l : Lexicon}
+    (t : AddTrace norm dr db db' l)
+    (hfk : ∀ o ∈ db.counts, o.lex ∈ db.lexicons.map (·.rowid)) (hnS : (db.senses.map (·.rowid)).Nodup)
+    (sid : String) (x0 : Nat) (hx0 : senseRow db' sid (t.ctx.lid sid) = some x0) :
+    (senseCounts db' x0 [t.lexid]).map (fun x => (x.value, x.md)) =
+      ((countPairs l).filter (fun p => p.1.id == sid)).map (fun p => (p.2.value, p.2.md)) := by
+  obtain ⟨rows, hrows, hF⟩ := addLexicon_counts_table t
+  obtain ⟨_, _, _, _, _, hnodS⟩ := addLexicon_sense_table t
+  have hlexid : t.lexid = nextId (db.lexicons.map (·.rowid)) := (insertLexicon_frame _ _ _ _ _ t.hlex).2.2.1
+  have hnS' : (db'.senses.map (·.rowid)).Nodup := hnodS hnS
+  unfold senseCounts
+  rw [hrows]
+  rw [filter_owned_append db.counts rows (·.sense) (·.lex) x0 t.lexid
+    (fun o ho e => by have := hfk o ho; rw [e, hlexid] at this; exact nextId_not_mem _ this)
+    (Forall2.forall_right (fun _ _ hr => hr.1) hF)]
+  exact owned_rows_filter (fun i => senseRowS' db'.senses i (t.ctx.lid i)) (senseRowS'_inj _ hnS' _)
+    (·.sense) (fun (p : Sense × Count) => p.1.id) (fun x : RCount => (x.value, x.md)) (fun p => (p.2.value, p.2.md))
+    (Forall2.imp (fun p r hr => ⟨hr.2.1, by rw [hr.2.2.1, hr.2.2.2]⟩) hF) sid x0 hx0
+
+/-! ### end to end: `Word.senses()` after `add` = the entry's senses in document order -/
+
+theorem Forall2.filter_agree {α β} {R : α → β → Prop} (P : α → Bool) (Q : β → Bool) (hPQ : ∀ a b, R a b → P a = Q b) :
+    ∀ {l : List α} {l' : List β}, Forall2 R l l' → Forall2 R (l.filter P) (l'.filter Q) := by
+  intro l l' h
+  induction h with
+  | nil => exact Forall2.nil
+  | @cons a b l l' h0 _ ih =>
+    simp only [List.filter_cons]
+    rw [← hPQ a b h0]
+    cases P a
+    · exact ih
+    · exact Forall2.cons h0 ih
+
+/-- in a list with pairwise distinct keys, the children listed under one key are those of the one element carrying it -/
+theorem pairs_filter_of_nodup {α γ κ} [BEq κ] [LawfulBEq κ] (key : α → κ) (items : α → List γ) :
+    ∀ (l : List α), (l.map key).Nodup → ∀ a ∈ l,
+      (l.flatMap (fun s => (items s).map (fun x => (s, x)))).filter (fun p => key p.1 == key a) = (items a).map (fun x => (a, x)) := by
+  intro l
+  induction l with
+  | nil => intro _ a ha; simp at ha
+  | cons b t ih =>
+    intro hn a ha
+    simp only [List.map_cons, List.nodup_cons] at hn
+    simp only [List.flatMap_cons, List.filter_append]
+    rcases List.mem_cons.mp ha with rfl | ha'
+    · have e1 : ((items a).map (fun x => (a, x))).filter (fun p => key p.1 == key a) = (items a).map (fun x => (a, x)) := by
+        rw [List.filter_eq_self]
+        intro p hp
+        obtain ⟨x, _, rfl⟩ := List.mem_map.mp hp
+        simp
+      have e2 : (t.flatMap (fun s => (items s).map (fun x => (s, x)))).filter (fun p => key p.1 == key a) = [] := by
+        rw [List.filter_eq_nil_iff]
+        intro p hp
+        obtain ⟨s, hs, hp'⟩ := List.mem_flatMap.mp hp
+        obtain ⟨x, _, rfl⟩ := List.mem_map.mp hp'
+        have : key s ≠ key a := fun e => hn.1 (List.mem_map.mpr ⟨s, hs, e⟩)
+        simpa using this
+      rw [e1, e2, List.append_nil]
+    · have e1 : ((items b).map (fun x => (b, x))).filter (fun p => key p.1 == key a) = [] := by
+        rw [List.filter_eq_nil_iff]
+        intro p hp
+        obtain ⟨x, _, rfl⟩ := List.mem_map.mp hp
+        have : key b ≠ key a := fun e => hn.1 (List.mem_map.mpr ⟨a, ha', e.symm⟩)
+        simpa using this
+      rw [e1, List.nil_append]
+      exact ih hn.2 a ha'
+
+theorem entryRowE'_some (E : List REntry) (id : String) (lex x : Nat) (h : entryRowE' E id lex = some x) :
+    ∃ r, r ∈ E ∧ r.id = id ∧ r.lex = lex ∧ r.rowid = x := by
+  unfold entryRowE' at h
+  cases hf : E.find? (fun r => r.id == id && r.lex == lex) with
+  | none => simp [hf] at h
+  | some r =>
+    simp only [hf, Option.map_some, Option.some.injEq] at h
+    have hp := List.find?_some hf
+    simp only [Bool.and_eq_true, beq_iff_eq] at hp
+    exact ⟨r, List.mem_of_find?_eq_some hf, hp.1, hp.2, h⟩
+
+theorem entryRowE'_inj (E : List REntry) (hn : (E.map (·.rowid)).Nodup) (lid : String → Nat) :
+    ∀ i j x, entryRowE' E i (lid i) = some x → entryRowE' E j (lid j) = some x → i = j := by
+  intro i j x hi hj
+  obtain ⟨a, ha, hai, _, har⟩ := entryRowE'_some _ _ _ _ hi
+  obtain ⟨b, hb, hbi, _, hbr⟩ := entryRowE'_some _ _ _ _ hj
+  have := mem_eq_of_key (·.rowid) E hn a ha b hb (by rw [har, hbr])
+  rw [← hai, ← hbi, this]
+
+/-- **C01, senses of a word, end to end**: for an entry id that occurs once in the document,
+`get_entry_senses` of its row, inside the new lexicon, lists exactly the entry's non-external
+senses in document order (`ORDER BY entry_rank` = position), each with its id and synset id -/
+theorem C01_word_senses_end_to_end {norm : String → String} {dr : Nat} {db db' : Db} {l : Lexicon}
+    (t : AddTrace norm dr db db' l)
+    (hfkS : ∀ o ∈ db.senses, o.lex ∈ db.lexicons.map (·.rowid))
+    (hnE : (db.entries.map (·.rowid)).Nodup) (hnY : (db.synsets.map (·.rowid)).Nodup)
+    (hids : (l.entries.map (·.id)).Nodup)
+    (e : Entry) (he : e ∈ l.entries) (er : Nat) (her : entryRow db' e.id (t.ctx.lid e.id) = some er) :
+    (entrySenses db' er [t.lexid]).map (fun s => (s.id, s.synsetId)) = (localSenses e).map (fun s => (s.id, s.synset)) := by
+  obtain ⟨hE, hY, rows, hrows, hF, _⟩ := addLexicon_sense_table t
+  obtain ⟨_, g2, g3⟩ := insertLexicon_frame2 _ _ _ _ _ t.hlex
+  have hlexid : t.lexid = nextId (db.lexicons.map (·.rowid)) := (insertLexicon_frame _ _ _ _ _ t.hlex).2.2.1
+  have hnY' : (db'.synsets.map (·.rowid)).Nodup := by
+    rw [hY]
+    apply insertSynsets_nodupY _ _ _ _ t.hsyn
+    rw [g2]; exact hnY
+  have hnE' : (db'.entries.map (·.rowid)).Nodup := by
+    rw [hE]
+    apply insertEntries_nodupE _ _ _ _ t.hent
+    rw [(keepsF_insertSynsets l _ _ _ t.hsyn).1, g3]; exact hnE
+  have her' : entryRowE' db'.entries e.id (t.ctx.lid e.id) = some er := her
+  unfold entrySenses
+  rw [hrows]
+  rw [filter_owned_append db.senses rows (·.entry) (·.lex) er t.lexid
+    (fun o ho e' => by have := hfkS o ho; rw [e', hlexid] at this; exact nextId_not_mem _ this)
+    (Forall2.forall_right (fun _ _ hr => hr.2.1) hF)]
+  -- the rows of this entry, in document order
+  have hsub : Forall2 (fun (p : Entry × (Sense × Nat)) row => SenseRowT t.ctx (db'.entries, db'.synsets) p.1 p.2 row)
+      ((sensePairs l).filter (fun p => p.1.id == e.id)) (rows.filter (fun r => r.entry == er)) := by
+    apply Forall2.filter_agree _ _ _ hF
+    intro p row hr
+    by_cases q : p.1.id = e.id
+    · have : row.entry = er := by
+        have h4 := hr.2.2.2.1
+        simp only at h4
+        rw [q, her'] at h4
+        exact (Option.some.inj h4).symm
+      simp [q, this]
+    · have : row.entry ≠ er := by
+        intro q'
+        have h4 := hr.2.2.2.1
+        simp only at h4
+        exact q (entryRowE'_inj _ hnE' _ _ _ _ (by rw [h4, q']) her')
+      have q1 : (p.1.id == e.id) = false := by simpa using q
+      have q2 : (row.entry == er) = false := by simpa using this
+      rw [q1, q2]
+  have hpairs : (sensePairs l).filter (fun p => p.1.id == e.id) = (localSenses e).zipIdx.map (fun si => (e, si)) :=
+    pairs_filter_of_nodup (fun x : Entry => x.id) (fun x => (localSenses x).zipIdx) l.entries hids e he
+  rw [hpairs] at hsub
+  -- already ordered by rank
+  have hsorted : (rows.filter (fun r => r.entry == er)).Pairwise (fun x y => x.erank ≤ y.erank) := by
+    have key : ∀ (L : List (Sense × Nat)) (R : List RSense) (n : Nat),
+        Forall2 (fun (p : Entry × (Sense × Nat)) row => SenseRowT t.ctx (db'.entries, db'.synsets) p.1 p.2 row) (L.map (fun si => (e, si))) R →
+        L.Pairwise (fun a b => a.2 < b.2) → (∀ a ∈ L, n ≤ a.2) → R.Pairwise (fun x y => x.erank ≤ y.erank) ∧ ∀ x ∈ R, n ≤ x.erank := by
+      intro L
+      induction L with
+      | nil => intro R n hh _ _; cases hh; exact ⟨List.Pairwise.nil, by simp⟩
+      | cons a L ih =>
+        intro R n hh hp hn
+        simp only [List.map_cons] at hh
+        cases hh with
+        | cons h0 hrest =>
+          rename_i b R'
+          rw [List.pairwise_cons] at hp
+          obtain ⟨ihp, ihn⟩ := ih R' (a.2 + 1) hrest hp.2 (fun x hx => hp.1 x hx)
+          have hb : b.erank = a.2 := h0.2.2.1
+          refine ⟨List.pairwise_cons.mpr ⟨fun y hy => by have := ihn y hy; omega, ihp⟩, ?_⟩
+          intro x hx
+          rcases List.mem_cons.mp hx with rfl | hx
+          · rw [hb]; exact hn a List.mem_cons_self
+          · have := ihn x hx; have := hn a List.mem_cons_self; omega
+    obtain ⟨hz1, hz2⟩ := zipIdx_pairwise (localSenses e) 0
+    exact (key _ _ 0 hsub hz1 (fun a _ => Nat.zero_le _)).1
+  rw [sortBy_of_sorted _ _ hsorted]
+  -- decode
+  have hdec : ∀ (p : Entry × (Sense × Nat)) (r : RSense), SenseRowT t.ctx (db'.entries, db'.synsets) p.1 p.2 r →
+      senseData db' r = some ⟨p.2.1.id, p.1.id, p.2.1.synset, r.lex, r.rowid⟩ := by
+    intro p r ⟨a1, _, _, a4, a5⟩
+    rw [← a1]
+    exact senseData_resolve db' r p.1.id p.2.1.synset _ _ a4 a5 hnE' hnY'
+  have hfm : ∀ {L : List (Entry × (Sense × Nat))} {R : List RSense},
+      Forall2 (fun (p : Entry × (Sense × Nat)) row => SenseRowT t.ctx (db'.entries, db'.synsets) p.1 p.2 row) L R →
+      (R.filterMap (senseData db')).map (fun s => (s.id, s.synsetId)) = L.map (fun p => (p.2.1.id, p.2.1.synset)) := by
+    intro L R hh
+    induction hh with
+    | nil => rfl
+    | cons hd _ ih =>
+      rw [List.filterMap_cons, hdec _ _ hd]
+      simp only [List.map_cons, ih]
+  rw [hfm hsub, List.map_map]
+  have : ∀ (L : List Sense) (n : Nat), (L.zipIdx n).map ((fun (p : Entry × (Sense × Nat)) => (p.2.1.id, p.2.1.synset)) ∘ fun si => (e, si)) = L.map (fun s => (s.id, s.synset)) := by
+    intro L
+    induction L with
+    | nil => intro n; rfl
+    | cons a L ih => intro n; simp only [List.zipIdx_cons, List.map_cons, Function.comp, ih]
+  exact this _ 0
+
+/-! ### listings used by the export round trip (C03) -/
+
+/-- what `words()` of the new lexicon lists after a successful add of a plain lexicon: one word per
+entry row, in order, with the row's forms chunk -/
+theorem words_listing (norm : String → String) (dr : Nat) (db db' : Db) (l : Lexicon)
+    (h : addLexicon norm dr db l = .ok db') (hext : l.ext = none) (hx : ∀ e ∈ l.entries, e.external = false)
+    (hfkE : ∀ o ∈ db.entries, o.lex ∈ db.lexicons.map (·.rowid))
+    (hfkF : ∀ f ∈ db.forms, f.entry ∈ db.entries.map (·.rowid)) :
+    ∃ (c : Ctx) (rows : List REntry) (chunks : List (List RForm)),
+      c.lexid = nextId (db.lexicons.map (·.rowid)) ∧ c.extid = c.lexid ∧ db'.entries = db.entries ++ rows ∧
+      EntryRows c db.entries l.entries rows ∧ chunks.length = rows.length ∧
+      findEntries db' none [] none [c.lexid] false true = (rows.zip chunks).map (fun p => wordOf p.1 p.2) ∧
+      (∀ i (h1 : i < l.entries.length) (h2 : i < rows.length),
+        entryRowE (db.entries ++ rows) (l.entries[i]).id c.lexid = some (rows[i]).rowid) := by
+  obtain ⟨c, rows, chunks, hc1, hc2, hE, hR, hF, hC⟩ := addLexicon_words_tables norm dr db db' l h hext hx
+  have hlid : ∀ id, c.lid id = c.lexid := by
+    intro id; unfold Ctx.lid; simp [hc2]
+  have hrl : ∀ r ∈ rows, r.lex = c.lexid := by
+    intro r hr
+    obtain ⟨i, hi, rfl⟩ := List.mem_iff_getElem.mp hr
+    exact (hR.spec i (by rw [← hR.len]; exact hi) hi).2.1
+  have hlenC : l.entries.length = chunks.length := hC.length_eq
+  -- the entry row that `_insert_forms` looked up for the i-th entry is the i-th new row
+  have hER : ∀ i (h1 : i < l.entries.length) (h2 : i < rows.length),
+      entryRowE (db.entries ++ rows) (l.entries[i]).id (c.lid (l.entries[i]).id) = some (rows[i]).rowid := by
+    intro i h1 h2
+    rw [hlid]
+    unfold entryRowE
+    rw [List.find?_append]
+    have hid := (hR.spec i h1 h2).1
+    have hold : db.entries.find? (fun r => r.id == (l.entries[i]).id && r.lex == c.lexid) = none := by
+      rw [List.find?_eq_none]
+      intro o ho
+      have := hR.fresh (rows[i]) (List.getElem_mem h2) o ho
+      rw [hid] at this
+      simpa using this
+    rw [hold, ← hid, Option.none_or, find_of_distinct rows c.lexid hR.distinct hrl i h2]
+    rfl
+  have hch : Forall2 (fun r ch => (∀ f ∈ ch, f.entry = r.rowid) ∧ ch ≠ [] ∧ ch.Pairwise (fun a b => a.rank ≤ b.rank)) rows chunks := by
+    apply Forall2.of_index rows chunks (by rw [hR.len, hlenC])
+    intro i h1 h2
+    have h0 : i < l.entries.length := by rw [← hR.len]; exact h1
+    obtain ⟨lem, er, lr, rws, a1, a2, a3, a4, a5, a6, a7, a8, a9, a10⟩ := hC.get i h0 h2
+    have her : er = (rows[i]).rowid := by
+      have := hER i h0 h1
+      rw [a2] at this
+      exact Option.some.inj this
+    rw [a3]
+    refine ⟨?_, by simp, ?_⟩
+    · intro f hf
+      rcases List.mem_cons.mp hf with rfl | hf
+      · rw [a7, her]
+      · obtain ⟨fi, _, hfi⟩ : ∃ fi ∈ (l.entries[i]).forms.zipIdx.filter (fun fi => !fi.1.external), FormRowOf norm c er fi f := by
+          have : ∀ {L : List (Form × Nat)} {R : List RForm}, Forall2 (FormRowOf norm c er) L R → ∀ f ∈ R, ∃ fi ∈ L, FormRowOf norm c er fi f := by
+            intro L R hh
+            induction hh with
+            | nil => intro f hf; simp at hf
+            | cons h1 _ ih =>
+              intro f hf
+              rcases List.mem_cons.mp hf with rfl | hf
+              · exact ⟨_, List.mem_cons_self, h1⟩
+              · obtain ⟨x, hx, hr⟩ := ih f hf
+                exact ⟨x, List.mem_cons_of_mem _ hx, hr⟩
+          exact this a10 f hf
+        rw [hfi.2.1, her]
+    · rw [List.pairwise_cons]
+      constructor
+      · intro f _; rw [a6]; exact Nat.zero_le _
+      · have hp : ((l.entries[i]).forms.zipIdx.filter (fun fi => !fi.1.external)).Pairwise (fun a b => a.2 < b.2) :=
+          ((zipIdx_pairwise _ 0).1).sublist List.filter_sublist
+        exact Forall2.pairwise (S := fun a b => a.2 < b.2) (T := fun a b => a.rank ≤ b.rank)
+          (fun a b a' b' hab hab' hlt => by rw [hab.2.2.2.2.2.1, hab'.2.2.2.2.2.1]; omega) a10 hp
+  have hfind := findEntries_of_tables db' db.entries rows db.forms chunks c.lexid hE hF
+    (by
+      intro o ho e
+      have := hfkE o ho
+      rw [e, hc1] at this
+      exact nextId_fresh _ this)
+    hrl hR.incr
+    (by
+      intro f hf r hr e
+      obtain ⟨o, ho, hor⟩ := List.mem_map.mp (hfkF f hf)
+      have := hR.above r hr o ho
+      omega)
+    hch
+  refine ⟨c, rows, chunks, hc1, hc2, hE, hR, by rw [← hlenC, hR.len], hfind, ?_⟩
+  intro i h1 h2
+  have := hER i h1 h2
+  rw [hlid] at this
+  exact this
+
+/-- **C01, senses of a word, end to end**: for an entry id that occurs once in the document,
+`get_entry_senses` of its row, inside the new lexicon, lists exactly the entry's non-external
+senses in document order (`ORDER BY entry_rank` = position), each with its id and synset id -/
+theorem entry_senses_listing {norm : String → String} {dr : Nat} {db db' : Db} {l : Lexicon}
+    (t : AddTrace norm dr db db' l)
+    (hfkS : ∀ o ∈ db.senses, o.lex ∈ db.lexicons.map (·.rowid))
+    (hnE : (db.entries.map (·.rowid)).Nodup) (hnY : (db.synsets.map (·.rowid)).Nodup)
+    (hids : (l.entries.map (·.id)).Nodup)
+    (e : Entry) (he : e ∈ l.entries) (er : Nat) (her : entryRow db' e.id (t.ctx.lid e.id) = some er) :
+    ∃ rows, db'.senses = db.senses ++ rows ∧ (∀ r ∈ rows, r.lex = t.lexid) ∧ (∀ o ∈ db.senses, o.lex ≠ t.lexid) ∧
+      rows.map (·.id) = (sensePairs l).map (fun p => p.2.1.id) ∧
+      Forall2 (fun (s : Sense) (d : SenseData) => d.id = s.id ∧ d.synsetId = s.synset ∧ ∃ r ∈ rows, r.rowid = d.rowid ∧ r.id = d.id)
+        (localSenses e) (entrySenses db' er [t.lexid]) := by
+  obtain ⟨hE, hY, rows, hrows, hF, _⟩ := addLexicon_sense_table t
+  obtain ⟨_, g2, g3⟩ := insertLexicon_frame2 _ _ _ _ _ t.hlex
+  have hlexid : t.lexid = nextId (db.lexicons.map (·.rowid)) := (insertLexicon_frame _ _ _ _ _ t.hlex).2.2.1
+  have hnY' : (db'.synsets.map (·.rowid)).Nodup := by
+    rw [hY]
+    apply insertSynsets_nodupY _ _ _ _ t.hsyn
+    rw [g2]; exact hnY
+  have hnE' : (db'.entries.map (·.rowid)).Nodup := by
+    rw [hE]
+    apply insertEntries_nodupE _ _ _ _ t.hent
+    rw [(keepsF_insertSynsets l _ _ _ t.hsyn).1, g3]; exact hnE
+  have her' : entryRowE' db'.entries e.id (t.ctx.lid e.id) = some er := her
+  unfold entrySenses
+  rw [hrows]
+  rw [filter_owned_append db.senses rows (·.entry) (·.lex) er t.lexid
+    (fun o ho e' => by have := hfkS o ho; rw [e', hlexid] at this; exact nextId_not_mem _ this)
+    (Forall2.forall_right (fun _ _ hr => hr.2.1) hF)]
+  -- the rows of this entry, in document order
+  have hsub : Forall2 (fun (p : Entry × (Sense × Nat)) row => SenseRowT t.ctx (db'.entries, db'.synsets) p.1 p.2 row)
+      ((sensePairs l).filter (fun p => p.1.id == e.id)) (rows.filter (fun r => r.entry == er)) := by
+    apply Forall2.filter_agree _ _ _ hF
+    intro p row hr
+    by_cases q : p.1.id = e.id
+    · have : row.entry = er := by
+        have h4 := hr.2.2.2.1
+        simp only at h4
+        rw [q, her'] at h4
+        exact (Option.some.inj h4).symm
+      simp [q, this]
+    · have : row.entry ≠ er := by
+        intro q'
+        have h4 := hr.2.2.2.1
+        simp only at h4
+        exact q (entryRowE'_inj _ hnE' _ _ _ _ (by rw [h4, q']) her')
+      have q1 : (p.1.id == e.id) = false := by simpa using q
+      have q2 : (row.entry == er) = false := by simpa using this
+      rw [q1, q2]
+  have hpairs : (sensePairs l).filter (fun p => p.1.id == e.id) = (localSenses e).zipIdx.map (fun si => (e, si)) :=
+    pairs_filter_of_nodup (fun x : Entry => x.id) (fun x => (localSenses x).zipIdx) l.entries hids e he
+  rw [hpairs] at hsub
+  -- already ordered by rank
+  have hsorted : (rows.filter (fun r => r.entry == er)).Pairwise (fun x y => x.erank ≤ y.erank) := by
+    have key : ∀ (L : List (Sense × Nat)) (R : List RSense) (n : Nat),
+        Forall2 (fun (p : Entry × (Sense × Nat)) row => SenseRowT t.ctx (db'.entries, db'.synsets) p.1 p.2 row) (L.map (fun si => (e, si))) R →
+        L.Pairwise (fun a b => a.2 < b.2) → (∀ a ∈ L, n ≤ a.2) → R.Pairwise (fun x y => x.erank ≤ y.erank) ∧ ∀ x ∈ R, n ≤ x.erank := by
+      intro L
+      induction L with
+      | nil => intro R n hh _ _; cases hh; exact ⟨List.Pairwise.nil, by simp⟩
+      | cons a L ih =>
+        intro R n hh hp hn
+        simp only [List.map_cons] at hh
+        cases hh with
+        | cons h0 hrest =>
+          rename_i b R'
+          rw [List.pairwise_cons] at hp
+          obtain ⟨ihp, ihn⟩ := ih R' (a.2 + 1) hrest hp.2 (fun x hx => hp.1 x hx)
+          have hb : b.erank = a.2 := h0.2.2.1
+          refine ⟨List.pairwise_cons.mpr ⟨fun y hy => by have := ihn y hy; omega, ihp⟩, ?_⟩
+          intro x hx
+          rcases List.mem_cons.mp hx with rfl | hx
+          · rw [hb]; exact hn a List.mem_cons_self
+          · have := ihn x hx; have := hn a List.mem_cons_self; omega
+    obtain ⟨hz1, hz2⟩ := zipIdx_pairwise (localSenses e) 0
+    exact (key _ _ 0 hsub hz1 (fun a _ => Nat.zero_le _)).1
+  rw [sortBy_of_sorted _ _ hsorted]
+  -- decode
+  have hdec : ∀ (p : Entry × (Sense × Nat)) (r : RSense), SenseRowT t.ctx (db'.entries, db'.synsets) p.1 p.2 r →
+      senseData db' r = some ⟨p.2.1.id, p.1.id, p.2.1.synset, r.lex, r.rowid⟩ := by
+    intro p r ⟨a1, _, _, a4, a5⟩
+    rw [← a1]
+    exact senseData_resolve db' r p.1.id p.2.1.synset _ _ a4 a5 hnE' hnY'
+  have hfm : ∀ {L : List (Sense × Nat)} {R : List RSense}, (∀ r ∈ R, r ∈ rows) →
+      Forall2 (fun (p : Entry × (Sense × Nat)) row => SenseRowT t.ctx (db'.entries, db'.synsets) p.1 p.2 row) (L.map (fun si => (e, si))) R →
+      Forall2 (fun (s : Sense) (d : SenseData) => d.id = s.id ∧ d.synsetId = s.synset ∧ ∃ r ∈ rows, r.rowid = d.rowid ∧ r.id = d.id)
+        (L.map (·.1)) (R.filterMap (senseData db')) := by
+    intro L
+    induction L with
+    | nil => intro R _ hh; cases hh; exact Forall2.nil
+    | cons a L ih =>
+      intro R hsubR hh
+      simp only [List.map_cons] at hh
+      cases hh with
+      | cons hd hrest =>
+        rename_i b R'
+        rw [List.filterMap_cons, hdec _ _ hd]
+        simp only [List.map_cons]
+        refine Forall2.cons ⟨rfl, rfl, b, hsubR b List.mem_cons_self, rfl, hd.1⟩ ?_
+        exact ih (fun r hr => hsubR r (List.mem_cons_of_mem _ hr)) hrest
+  have hmapfst : ∀ (L : List Sense) (n : Nat), (L.zipIdx n).map (·.1) = L := by
+    intro L
+    induction L with
+    | nil => intro n; rfl
+    | cons a L ih => intro n; simp only [List.zipIdx_cons, List.map_cons, ih]
+  refine ⟨rows, rfl, Forall2.forall_right (fun _ _ hr => hr.2.1) hF,
+    (fun o ho e' => by have := hfkS o ho; rw [e', hlexid] at this; exact nextId_not_mem _ this),
+    Forall2.map_eq (fun r : RSense => r.id) (fun p : Entry × (Sense × Nat) => p.2.1.id) (fun _ _ hr => hr.1) hF, ?_⟩
+  have := hfm (L := (localSenses e).zipIdx) (fun r hr => (List.mem_filter.mp hr).1) hsub
+  rw [hmapfst] at this
+  exact this
+
 
 end WnVerif.Props.C01
